@@ -75,17 +75,26 @@ class FakeSock:
     def makefile(self, mode="r", *args, **kw):      # buffering / encoding / newline: accepted like a real socket's
         return self
 
+    log = None                      # set to a list to record the raw socket events (harness/rpcconn.py)
+
     def readline(self):
-        return self.q.get()
+        line = self.q.get()
+        if self.log is not None:
+            self.log.append(("recv", line))
+        return line
 
     def write(self, s):
         self.out.append(s)
+        if self.log is not None:
+            self.log.append(("send", s))
 
     def flush(self):
         pass
 
     def close(self):
         self.closed = True
+        if self.log is not None:
+            self.log.append(("close", ""))
 
 
 class Conn:
